@@ -120,7 +120,7 @@ def run(s):
     # ---------------- 2b. order of property access on the (T,P) interfaces: every quantity read in two interleaved orders on two calculators alive at once is the
     # conversion of its OWN volume-base quantity (the call-site obligation of C06, registered here: a result that depends on what was read before is an isolation defect)
     from props import C06
-    C06.run(core.SubSession(s, lambda n: n.replace("C06.", "C14.access_order."), lambda n: "forwarding_of_every_quantity" in n))
+    core.SubSession(s, lambda n: n.replace("C06.", "C14.access_order."), lambda n: "forwarding_of_every_quantity" in n).run(C06)
 
     # ---------------- 3. idempotence of filling
     fill = fill_env.fill_module()
